@@ -58,6 +58,9 @@ def ref_specs(small=False):
     S["aes-lzma2"] = (three, [{"coders": [{"m": RC.M_AES, "cycles": 3}, {"m": RC.M_LZMA2}], "n": 3}], {"header": "raw"}, "pw")
     S["aes-copy"] = (three, [{"coders": [{"m": RC.M_AES, "cycles": 2}, {"m": RC.M_COPY}], "n": 3}], {"header": "raw"}, "pw")
     S["aes-hdr"] = (three, [{"coders": [{"m": RC.M_AES, "cycles": 3}, {"m": RC.M_LZMA2}], "n": 3}], {"header": "aes", "hdr_cycles": 3}, "pw")
+    S["packpos-crc"] = (three, [{"coders": [{"m": RC.M_COPY}], "n": 2}, {"coders": [{"m": RC.M_LZMA2}], "n": 1}], {"header": "raw", "packpos": 9, "pack_crc": True}, None)
+    noattr = [dict(D("d"), attr=None), dict(F("d/a.txt", TXT), attr=None), dict(D("e"), attr=None), F("top.bin", BIN)]
+    S["noattr-dirs"] = (noattr, [{"coders": [{"m": RC.M_LZMA2}], "n": 2}], {"header": "lzma"}, None)
     S["foldercrc"] = (three[:1], [{"coders": [{"m": RC.M_LZMA2}], "n": 1, "fcrc": True}], {"header": "raw"}, None)
     return S
 
